@@ -130,7 +130,7 @@ def run(ctx):
                     rec["failures"] = fails[:8]
                 recs.append(rec)
                 meta.append({"platform": plat, "cfg": c, "log": l})
-                if f is not None and (bname in ("zeros", "snapshot0") or not ctx.quick):
+                if f is not None and (bname in ("zeros", "ones", "snapshot0") or not ctx.quick):
                     # the block of a LIVE facade changes (a refresh or a partial update arrives): the owner switches the
                     # display unit, and - from the all-zero block - every byte changes at once
                     rec2 = {"kind": "facade", "combo": rec["combo"], "block": bname + "+update", "built": True,
@@ -138,6 +138,9 @@ def run(ctx):
                     try:
                         if bname == "zeros":
                             st.replace_status_block_segment(0, b"\xff" * 1024)
+                        elif bname == "ones":
+                            # everything that was raised / running / non-zero when the facade was built clears
+                            st.replace_status_block_segment(0, bytes(1024))
                         else:
                             tu = st.accessors.get("TempUnits")
                             if tu is not None and tu.pos < 1024:
@@ -185,6 +188,19 @@ def run(ctx):
                 meta.append({"platform": plat})
             from geckolib.driver import GeckoReminderType
             from geckolib.automation.reminders import GeckoReminders
+            # reminder reports without a single valid record (an empty answer, only INVALID entries) - after a good one
+            for lst in ([(GeckoReminderType.INVALID, 3)], [], [(GeckoReminderType.INVALID, 0), (GeckoReminderType.INVALID, -1)]):
+                rec = {"kind": "remlist", "n": len(lst), "text": "ok"}
+                try:
+                    f.reminders_manager.change_reminders([(list(GeckoReminderType)[1], 5)])
+                    f.reminders_manager.change_reminders(list(lst))
+                    _ = (str(f.reminders_manager), f.reminders_manager.reminders, f.reminders_manager.last_update,
+                         f.reminders_manager.monitor, repr(f.reminders_manager))
+                    _ = [d.monitor for d in f.all_automation_devices if d is not None]
+                except Exception as e:  # noqa
+                    rec["text"] = f"raised:{type(e).__name__}"
+                recs.append(rec)
+                meta.append({"platform": plat})
             for days in (-32768, -1, 0, 1, 32767, rng.randrange(-32768, 32768)):
                 for t in GeckoReminderType:
                     rec = {"kind": "rem", "days": days, "text": ""}
